@@ -650,6 +650,10 @@ def stream_pathmut(rng, tier):
     for p in shields:
         for o1 in steps:
             for o2 in steps:
+                # ... and the same two edits through the owned buffer's own methods (which need not go
+                # through the handle), both families
+                for f in "ui":
+                    yield "hist %s path %s %s %s" % (f, hx(p), o1, o2)
                 yield "hist u path %s pm[%s;%s]" % (hx(p), o1, o2)
                 if p.startswith("/") or p == "":
                     yield "hist u ref %s pm[%s;%s]" % (hx("s://h" + p + "?query#frag"), o1, o2)
@@ -1271,6 +1275,18 @@ def stream_convert(rng, tier):
                 yield "relto %s %s %s" % (f, hx(a), hx(b))
                 yield "suffix %s full %s %s" % (f, hx(a), hx(b))
                 yield "resolve %s %s %s" % (f, hx(a), hx(b))
+    # `base()` of every kind of value, both families and both types
+    for a in ["http://example.org", "http://example.org?q", "http://user@[::1]:80#frag", "s://h/a/b?q#f", "s:/a/b", "s:a/b", "s:", "s:?q",
+              "//h", "//h/a/", "a/b/c", "/a", "", "?q", "#f", "s://h/a?x/y#z/w"]:
+        for f in "ui":
+            yield "base %s ref %s" % (f, hx(a))
+            if ":" in a.split("/")[0]:
+                yield "base %s full %s" % (f, hx(a))
+    for _ in range(n // 6):
+        a = rand_ref(rng, "u", True)
+        for f in "ui":
+            yield "base %s full %s" % (f, hx(a))
+            yield "base %s ref %s" % (f, hx(a))
     # stand-alone path buffers edited through the handle, both families (shield states included)
     for p0 in ["//a/./b", "//a", "/./", "/.//a", "//", "/a/b", "a/b", "", "/", ".//a", "./a:b", "//a/b/../..", "/a//b"]:
         for ops in ["norm", "pop", "push:" + hx("b"), "pop;push:" + hx("b"), "push:" + hx(""), "spush:" + hx(".."), "norm;pop;norm",
